@@ -25,9 +25,20 @@ def gen(rng, tier):
     cases = []
     for i in range(n):
         big = tier == "thorough" and i % 4 == 0
-        forest = forests.gen_forest(rng, rng.randrange(1, 5), 6 if big else 4, 4 if big else 3)
+        if i % 10 == 9:
+            # a wide action: 20-30 children, several of them sub-actions (positions [2] and [2x] both
+            # hold actions), delivered in shuffled orders
+            kids = []
+            for k in range(rng.randrange(20, 31)):
+                if k in (0, 18, 19, 20) or rng.random() < 0.25:
+                    kids.append(["A", rng.choice([10, 11]), "succeeded", [["M", 12]] if rng.random() < 0.5 else []])
+                else:
+                    kids.append(["M", 13])
+            forest = [["A", 10, "succeeded", kids]]
+        else:
+            forest = forests.gen_forest(rng, rng.randrange(1, 5), 6 if big else 4, 4 if big else 3)
         msgs = forests.linearize(forest)
-        if len(msgs) > (400 if big else 60):
+        if len(msgs) > (400 if big else 90):
             continue
         ids = list(range(len(msgs)))
         orders = []
